@@ -201,6 +201,16 @@ def stepLine (_ : Unit) (line : String) : Unit × String :=
         let b ← parseBytes? b
         let m ← m.toNat?
         pure (fmtPR (fun r => fmtArgv (some r)) (argvSplitNP b m))
+    | ["argvnz", b, m] => do
+        let b ← parseBytes? b
+        let m ← m.toNat?
+        pure (fmtPR (fun r => fmtArgv (some r)) (argvSplitNP b m))
+    | ["premc", a, b] => do
+        let a ← parseBytes? a
+        let b ← parseBytes? b
+        pure (match pathRemovePrefix (a ++ [NUL]) (b ++ [NUL]) with
+              | none => "fault"
+              | some p => toString (a.length + 1 - p.length))
     | ["argv", b, m] => do
         let b ← parseBytes? b
         let m ← m.toNat?
